@@ -110,8 +110,9 @@ PROPS = {
         "extra": [r"refs/line-is-wsfree"],
         "lemmas": ["inv/store_object", "inv/tag_object", "inv/delete_object",
                    "inv/delete_if_invalid_object", "inv/store_metadata", "inv/delete_metadata",
-                   "inv/retrieve_metadata"],
-        "lemma_select": [r"lemma/.*/(inv-pair|inv-loc)", r"lemma/delete_object/.*"],
+                   "inv/retrieve_metadata", "inv/fresh-store"],
+        "lemma_select": [r"lemma/.*/(inv-pair|inv-loc)", r"lemma/delete_object/.*",
+                         r"lemma/fresh-store/.*"],
     },
     "C06": {
         "fns": fns([F + "_check_integer", F + "_check_arg_algorithms_and_checksum",
